@@ -20,36 +20,52 @@ theorem utf8Decode_encode (s : Str) : utf8Decode (utf8Encode s) = some s := by
 
 theorem utf8Encode_crlf : utf8Encode ['\r', '\n'] = CRLF := by decide
 
-theorem uint8_ofNat_eq_13 (n : Nat) (h : UInt8.ofNat n = 13) : n % 256 = 13 := by
+theorem uint8_ofNat_toNat (n : Nat) (b : UInt8) (h : UInt8.ofNat n = b) : n % 256 = b.toNat := by
   have := congrArg UInt8.toNat h
   simpa using this
 
-/-- the byte CR occurs in a UTF-8 encoding only as the character CR -/
-theorem mem_utf8EncodeChar_cr (c : Char) (h : (13 : UInt8) ∈ String.utf8EncodeChar c) : c = '\r' := by
+/-- an ASCII byte occurs in a UTF-8 encoding only as the character with that code -/
+theorem mem_utf8EncodeChar_ascii (c : Char) (b : UInt8) (hb : b.toNat < 128)
+    (h : b ∈ String.utf8EncodeChar c) : c.val.toNat = b.toNat := by
   unfold String.utf8EncodeChar at h
   simp only at h
   split at h
   · rename_i hv
     simp only [List.mem_singleton] at h
-    have := uint8_ofNat_eq_13 _ h.symm
-    have hv13 : c.val.toNat = 13 := by omega
-    apply Char.ext
-    apply UInt32.toNat_inj.mp
-    rw [hv13]; rfl
+    have := uint8_ofNat_toNat _ _ h.symm
+    omega
   · split at h
     · simp only [List.mem_cons, List.not_mem_nil, or_false] at h
-      rcases h with h | h <;> have := uint8_ofNat_eq_13 _ h.symm <;> omega
+      rcases h with h | h <;> have := uint8_ofNat_toNat _ _ h.symm <;> omega
     · split at h
       · simp only [List.mem_cons, List.not_mem_nil, or_false] at h
-        rcases h with h | h | h <;> have := uint8_ofNat_eq_13 _ h.symm <;> omega
+        rcases h with h | h | h <;> have := uint8_ofNat_toNat _ _ h.symm <;> omega
       · simp only [List.mem_cons, List.not_mem_nil, or_false] at h
-        rcases h with h | h | h | h <;> have := uint8_ofNat_eq_13 _ h.symm <;> omega
+        rcases h with h | h | h | h <;> have := uint8_ofNat_toNat _ _ h.symm <;> omega
+
+theorem mem_utf8Encode_ascii (s : Str) (b : UInt8) (hb : b.toNat < 128) (h : b ∈ utf8Encode s) :
+    ∃ c ∈ s, c.val.toNat = b.toNat := by
+  unfold utf8Encode at h
+  obtain ⟨c, hc, hbc⟩ := List.mem_flatMap.mp h
+  exact ⟨c, hc, mem_utf8EncodeChar_ascii c b hb hbc⟩
 
 theorem cr_not_mem_utf8Encode (s : Str) (h : '\r' ∉ s) : CR ∉ utf8Encode s := by
   intro hm
-  unfold utf8Encode at hm
-  obtain ⟨c, hc, hb⟩ := List.mem_flatMap.mp hm
-  exact h (mem_utf8EncodeChar_cr c hb ▸ hc)
+  obtain ⟨c, hc, hv⟩ := mem_utf8Encode_ascii s CR (by decide) hm
+  have : c = '\r' := by
+    apply Char.ext
+    apply UInt32.toNat_inj.mp
+    rw [hv]; rfl
+  exact h (this ▸ hc)
+
+theorem lf_not_mem_utf8Encode (s : Str) (h : '\n' ∉ s) : LF ∉ utf8Encode s := by
+  intro hm
+  obtain ⟨c, hc, hv⟩ := mem_utf8Encode_ascii s LF (by decide) hm
+  have : c = '\n' := by
+    apply Char.ext
+    apply UInt32.toNat_inj.mp
+    rw [hv]; rfl
+  exact h (this ▸ hc)
 
 /-! ### the domain -/
 
